@@ -547,17 +547,23 @@ def canon_guards(fn, bb, ct, items, prefix='', within=None, relevant=None):
         if getattr(fn, '_loops_cache', None) is None:
             fn._loops_cache = fn.loops()
         around = [body for body in fn._loops_cache.values() if bb in body]
-        pend = [(c, lab, set() if any(d in body for body in around) else _atom_closure(fn, _atoms(fn, c))) for c, lab, d in cand]
+        pend = [(c, lab, any(d in body for body in around), _atom_closure(fn, _atoms(fn, c))) for c, lab, d in cand]
         cand = []
         changed = True
         while changed:
             changed = False
             for x in list(pend):
-                if not x[2] or x[2] & rel:
-                    rel |= x[2]
+                if not x[3] or x[3] & rel:
+                    rel |= x[3]
                     cand.append((x[0], x[1]))
                     pend.remove(x)
                     changed = True
+        # loop decisions on other data: the decision itself stays in the slice, the definitions of the locals it mentions
+        # do not (they say how the loop steers, not what the site computes)
+        side = CTree(fn)
+        for c, lab, inloop, at in pend:
+            if inloop:
+                items.add('%sguard %s in %s' % (prefix, side.text(c)[:700], lab))
     for c, lab in cand:
         items.add('%sguard %s in %s' % (prefix, ct.text(c)[:700], lab))
 
